@@ -96,9 +96,9 @@ def features(prog):
 
 
 def reference(prog):
-    """Returns (expected, keys, fragile, ambiguous_mass) where expected[qi] = {canonical list term: Fraction} and,
-    for all/3 wrappers, ambiguous_mass[qi] = {frozenset of elements: Fraction} is the weight of the worlds in which
-    the order of the distinct solutions is not asserted."""
+    """Returns (expected, choice keys, (order-fragile, multiplicity-fragile), ambiguous, duplicates seen) where
+    expected[qi] = {canonical list term: Fraction} and, for all/3 wrappers, ambiguous[qi] = {multiset of elements:
+    Fraction} is the weight of the worlds in which the order of the distinct solutions is not asserted."""
     queries = _queries(prog)
 
     kinds = [_wrapper_kind(prog, q[0]) for q in queries]
@@ -117,8 +117,17 @@ def reference(prog):
     mx = ref.Interp(prog, budget=40000)
     mx.all_choices = True
     mx.track_proofs = True
-    global_order = [r[1] for r in run(mx)]
-    fragile = any(not ref.order_robust(proofs, uses) for _k, proofs, uses in mx.findall_log)
+    global_order = []
+    for q, kind in zip(queries, kinds):
+        n0, l0 = len(mx.all_log), len(mx.findall_log)
+        mx.query(q[0], q[1])
+        global_order.append(tuple(mx.all_log[-1]) if kind == "all" and len(mx.all_log) > n0 else None)
+        inner = mx.findall_log[l0:-1]
+        # a nested findall/all with k possible proofs yields up to 2^k lists, each one a solution of the outer goal
+        if inner and sum(2 ** len(proofs) for _k, proofs, _u in inner) > MAX_PROOFS:
+            raise ref.Budget()
+    fragile = (any(not ref.order_robust(proofs, uses) for _k, proofs, uses in mx.findall_log),
+               any(not ref.multiplicity_robust(uses) for _k, _p, uses in mx.findall_log))
     if any(len(proofs) > MAX_PROOFS for _k, proofs, _u in mx.findall_log):
         raise ref.Budget()  # ProbLog enumerates 2^proofs sublists
     worlds, keys = ref.enumerate_worlds(prog, run, max_leaves=MAX_LEAVES, budget=20000)
@@ -132,7 +141,9 @@ def reference(prog):
                 lst = a[0]
                 if order is not None and global_order[qi] is not None:
                     pos = dict((x, i) for i, x in enumerate(global_order[qi]))
-                    if all(x in pos for x in order) and sorted(order, key=lambda x: pos[x]) != list(order):
+                    # (answers that the maximal run does not have - elements with inner lists that only exist in
+                    # this world - have no position among all possible solutions: order not asserted either)
+                    if not all(x in pos for x in order) or sorted(order, key=lambda x: pos[x]) != list(order):
                         key = _as_multiset(lst)
                         ambiguous[qi][key] = ambiguous[qi].get(key, 0) + w
                         continue
@@ -170,13 +181,13 @@ def _close_dict(a, b):
 
 
 def _as_multiset(lst):
-    items = ref.list_items(lst)
-    return tuple(sorted(map(repr, items))) if items is not None else ("?", repr(lst))
+    """The list modulo the order inside lists (at every depth)."""
+    return ref.sort_lists(lst)
 
 
 def _as_set(lst):
-    items = ref.list_items(lst)
-    return frozenset(items) if items is not None else frozenset([("?", repr(lst))])
+    """The list modulo order and multiplicity inside lists (at every depth)."""
+    return ref.dedup_lists(lst)
 
 
 def _fmt(d):
@@ -210,7 +221,7 @@ def compare_query(kind, exp, amb, got):
         if ok:
             return None
     detail = "reference %s%s, ProbLog %s" % (_fmt(exp), (" + order-free mass %s" % dict(
-        (k, str(v)) for k, v in amb.items())) if amb else "", _fmt(got))
+        (ref.show(k), str(v)) for k, v in amb.items())) if amb else "", _fmt(got))
     tot_m = _proj(exp, _as_multiset)
     for k, v in amb.items():
         tot_m[k] = tot_m.get(k, 0) + v
@@ -218,11 +229,8 @@ def compare_query(kind, exp, amb, got):
         return ("order-mismatch", detail)
     tot_s = _proj(exp, _as_set)
     for k, v in amb.items():
-        k2 = frozenset(k)
-        tot_s[k2] = tot_s.get(k2, 0) + v
-    if _close_dict(tot_s, _proj(got, lambda l: frozenset(_as_multiset(l)))) and _close_dict(
-            _proj(exp, lambda l: frozenset(_as_multiset(l))) if not amb else tot_s,
-            _proj(got, lambda l: frozenset(_as_multiset(l)))):
+        tot_s[_as_set(k)] = tot_s.get(_as_set(k), 0) + v
+    if _close_dict(tot_s, _proj(got, _as_set)):
         return ("duplicates-mismatch", detail)
     return ("prob-mismatch", detail)
 
@@ -251,8 +259,7 @@ def check(case):
     nlists = max(len(e) + len(a) for e, a in zip(expected, ambiguous)) if queries else 0
     nontrivial = len(keys) >= 2 and nlists >= 2
     sample = {"program": src, "reference": [_fmt(e) for e in expected]}
-    suffix = "|node-order" if fragile else ""
-    cls = ["order-fragile" if fragile else "order-robust"]
+    cls = ["order-fragile" if fragile[0] else "order-robust"]
     failure = None
     if res[0] == "crash":
         failure = Failure("crash", "internal exception %s\nprogram:\n%s" % (res[1], src), sig=res[1])
@@ -270,6 +277,13 @@ def check(case):
                 kind = _wrapper_kind(prog, q[0])
                 r = compare_query(kind, expected[qi], ambiguous[qi], got[qi])
                 if r is not None:
+                    suffix = ""
+                    if r[0] == "order-mismatch" and fragile[0] and kind == "findall":
+                        suffix = "|node-order"
+                    elif r[0] == "duplicates-mismatch" and fragile[1]:
+                        suffix = "|leafless"
+                    elif r[0] == "duplicates-mismatch" and nested_all_in_findall(case):
+                        suffix = "|nested-all"
                     failure = Failure(r[0], "%s (%s/3): %s\nprogram:\n%s" % (q[0], kind, r[1], src),
                                       sig="%s:%s%s" % (kind, r[0], suffix))
                     break
@@ -288,21 +302,48 @@ def render(case):
     return ref.render_program(case["prog"])
 
 
+def nested_all_in_findall(case, failure=None):
+    """Class of the finding 'an all/3 inside the goal of a findall/3 repeats the outer element once per proof of the
+    inner list': some findall goal of the program contains an all/3."""
+    def has(g, inside):
+        k = g[0]
+        if k == "all" and inside:
+            return True
+        if k in ("and", "or"):
+            return any(has(x, inside) for x in g[1])
+        if k == "not":
+            return has(g[1], inside)
+        if k in ("findall", "all"):
+            return has(g[2], inside or k == "findall")
+        return False
+
+    return any(s[0] in ("cl", "ad") and s[2] is not None and has(s[2], False) for s in case["prog"])
+
+
 def findall_node_order(case, failure=None):
     """Class of the finding 'findall/3 orders its solutions by the largest node id of their proofs' (see
     pbt/props/c13.py): in the run where every probabilistic choice is possible some findall has solutions that do not
     all end in a proof leaf of their own."""
     try:
-        return bool(reference(case["prog"])[2])
+        return bool(reference(case["prog"])[2][0])
     except (ref.Budget, ref.Unsupported):
         return False
 
 
-KNOWN_CLASSES = {"findall_node_order": findall_node_order}
+def findall_leafless_proof(case, failure=None):
+    """Class of the finding 'proofs without leaves collapse into one findall element' (see pbt/props/c13.py)."""
+    try:
+        return bool(reference(case["prog"])[2][1])
+    except (ref.Budget, ref.Unsupported):
+        return False
+
+
+KNOWN_CLASSES = {"findall_node_order": findall_node_order, "findall_leafless_proof": findall_leafless_proof,
+                 "nested_all_in_findall": nested_all_in_findall}
 
 SUBCHECKS = [
     SubCheck("worlds", check, strategy=_strategy, budget={"quick": 800, "thorough": 11000},
              timeout={"quick": 15, "thorough": 60}, render=render),
     SubCheck("nested", check, strategy=_strategy_nested, budget={"quick": 0, "thorough": 4000},
-             timeout={"quick": 15, "thorough": 60}, render=render),
+             timeout={"quick": 15, "thorough": 30}, render=render),
 ]
